@@ -59,11 +59,10 @@ CONFIG = {
         "path/filepath (Clean, Join, Rel, Dir, IsAbs, Abs) hand-modelled on component lists (lc / rel_under); archive/tar, compress/gzip, digest verification, os.CreateTemp (temp files in TMPDIR are outside the statement) not modelled",
         "file modes, Chtimes/Chmod (PreservePermissions) are not in the model: re-moding outside is judged only by the harness snapshot (mode, inode, size, content, link text of every object outside the working directory)",
         "Inv hypothesis: the working directory and its ancestors are real directories, links below the working directory are lexically confined (true of any tree without links, and preserved by the store), files below it share no inode with the outside",
-        "C11_confined_partial excludes (push_ok) archives with a symbolic-link entry named exactly like the unpack directory itself (the entry replaces the empty unpack directory by a self-referential link); such archives are exercised by the harness and corpus/C11/self-named-link.json only",
         "the harness runs as root inside chroot(-dir); titles/entry names/targets are generated from a fixed grammar",
     ],
-    "level_text": "Coq theorems over all trees satisfying the invariant, all titles, all entry sequences (regular, directory, symlink, hard link, other), all link targets and any process cwd: every sequence of pushes of the repaired store leaves the view (existence, type, content, link text) of every location outside the working directory unchanged and preserves the invariant; names and entries that lexically resolve outside are rejected with an error; five machine-checked counter-examples show the pre-repair code (and each repair removed individually) escaping. Model tied to the code by a differential run of the extracted model against Store.Push on a real file system inside a chroot, plus an independent before/after snapshot oracle",
-    "level_note": "partial: archives containing a symlink entry named like the unpack directory itself are outside the confinement theorem (observed by the harness only); kernel path resolution, filepath and file modes are modelled/observed, not verified; F10, F11 and three further escapes found by the model are fixed on the repo branch",
+    "level_text": "Coq theorems over all trees satisfying the invariant, all titles, all entry sequences (regular, directory, symlink, hard link, other), all link targets and any process cwd: every sequence of pushes of the repaired store leaves the view (existence, type, content, link text) of every location outside the working directory unchanged and preserves the invariant; names and entries that lexically resolve outside are rejected with an error; the working directory itself stays a real directory; six machine-checked counter-examples show the pre-repair code (each repair removed individually) escaping. Model tied to the code by a differential run of the extracted model against Store.Push on a real file system inside a chroot, plus an independent before/after snapshot oracle",
+    "level_note": "full for existence/type/content/link text of every location outside the working directory and for the working directory's own entry; kernel path resolution and path/filepath are modelled, not verified; file modes (re-moding) are observed by the harness snapshot only; F10, F11 and four further escapes found with the model are fixed on the repo branch (six fix: commits)",
     "technique": "machine-checked proof in Coq (invariant over kernel path resolution with symbolic and hard links; lexical = physical lemma; frame theorem for every system call of the store) + model/implementation correspondence on a real file system + snapshot oracle",
     "explanation": "frame theorem (nothing outside the working directory changes) and invariant preservation for all push sequences of the repaired file store, proved in Coq; extracted model diffed against Store.Push (verdicts + full tree listing) on generated cases in a chroot sandbox; oracle = snapshot of everything outside the working directory before/after each Push + lexical outside-name rejection",
 }
